@@ -52,6 +52,11 @@ EDITS = {
         ("wa03", RT + "wasm.rs", "    current.data[pos] = input.to_bits();\n\n    old_value", "    current.data[pos] = old_bits;\n\n    old_value", "kani", "runtime"),
         ("wa04", RT + "wasm.rs", "        current.pos = current.pos.saturating_sub(delta);\n    } else {\n        let delta_u64 = offset.unsigned_abs();\n        let delta = usize::try_from(delta_u64).unwrap_or(usize::MAX);\n        current.pos = current.pos.saturating_add(delta);",
          "        current.pos = current.pos.saturating_sub(delta + 1);\n    } else {\n        let delta_u64 = offset.unsigned_abs();\n        let delta = usize::try_from(delta_u64).unwrap_or(usize::MAX);\n        current.pos = current.pos.saturating_add(delta);", "kani", "runtime"),
+        ("am01", RT + "vm.rs", "                    let ptr = self.get_current_state().get_state_mut(1);\n                    ptr[0] = s;", "                    let ptr = self.get_current_state().get_state_mut(1);\n                    ptr[0] = v;", "kani", "runtime"),
+        ("am02", RT + "vm.rs", "                    self.set_stack_range(dst as i64, v);\n                }\n                Instruction::SetState", "                    self.set_stack_range(dst as i64 + 1, v);\n                }\n                Instruction::SetState", "kani", "runtime"),
+        ("am03", RT + "vm.rs", "                    let res = ringbuf.process(i, t);", "                    let res = ringbuf.process(t, i);", "kani", "runtime"),
+        ("am04", RT + "vm.rs", "                        let (_range, v) = self.get_stack_range(src as i64, size as _);", "                        let (_range, v) = self.get_stack_range(src as i64 + 1, size as _);", "kani", "runtime"),
+        ("am05", RT + "vm.rs", "                Instruction::PopStatePos(v) => self.get_current_state().pop_pos(v),", "                Instruction::PopStatePos(v) => self.get_current_state().push_pos(v),", "kani", "runtime"),
         ("st01", ST + "tree.rs", ".take(child_idx)", ".take(child_idx + 1)", "verus", "state_tree"),
         ("st03", ST + "tree.rs", "DELAY_ADDITIONAL_OFFSET as u64 + *len", "*len", "verus", "state_tree"),
     ],
@@ -164,7 +169,7 @@ def _files_needed(here, cfg):
         for root, _, names in os.walk(d):
             for nm in names:
                 t = open(os.path.join(root, nm)).read()
-                paths |= set(re.findall(r"//@KCUT(?:_X1)? (\S+) ::", t))
+                paths |= set(re.findall(r"//@KCUT(?:_X1|_ARM)? (\S+) ::", t))
                 paths |= set(re.findall(r'@REPO@/([^"]+)"', t))
     return paths
 
